@@ -35,6 +35,7 @@ use std::net::IpAddr;
 use std::sync::Arc;
 
 mod carrier;
+mod external;
 mod gen_cases;
 
 pub use gen_cases::generate;
@@ -577,10 +578,9 @@ pub enum Dom {
     Known(&'static str),
 }
 
-pub const F1: &str = "F1-zero-field-tuple-value";
-pub const F2: &str = "F2-null-or-unset-vector-element";
-pub const F8: &str = "F8-trailing-zero-length-element-in-variable-width-vector";
-pub const F9: &str = "F9-empty-element-in-fixed-width-vector";
+pub const F1: &str = "C01-F1-zero-field-tuple-value";
+pub const F2: &str = "C01-F2-null-or-unset-vector-element";
+pub const F9: &str = "C01-F9-empty-element-in-fixed-width-vector";
 
 fn join(a: Dom, b: Dom) -> Dom {
     match (a, b) {
@@ -613,10 +613,6 @@ pub fn supports_empty(t: &Ty) -> bool {
 
 fn lookup_last<'a>(n: &str, fs: &'a [(String, Val)]) -> Option<&'a Val> {
     fs.iter().rev().find(|(m, _)| m == n).map(|(_, v)| v)
-}
-
-fn zero_len_body(v: &Val) -> bool {
-    matches!(v, Val::Empty) || matches!(v, Val::Ascii(b) | Val::Text(b) | Val::Blob(b) if b.is_empty())
 }
 
 /// Is `(t, v)` in the domain of "decode(encode v) = pad v"?  `nullable`: top level / tuple / UDT field.
@@ -657,14 +653,11 @@ pub fn classify(t: &Ty, v: &Val, nullable: bool) -> Dom {
             }
             let fixed = size_for_vector(e).is_some();
             let mut d = Dom::In;
-            for (i, v) in vs.iter().enumerate() {
+            for v in vs.iter() {
                 let di = match v {
                     Val::Null | Val::Unset => Dom::Known(F2),
                     Val::Empty if fixed => if supports_empty(e) { Dom::Known(F9) } else { Dom::Out },
-                    _ => {
-                        let c = classify(e, v, false);
-                        if c == Dom::In && !fixed && i + 1 == vs.len() && zero_len_body(v) { Dom::Known(F8) } else { c }
-                    }
+                    _ => classify(e, v, false),
                 };
                 d = join(d, di);
             }
